@@ -57,7 +57,7 @@ func c14scope(env c14env, ticks *int) parser.Scope {
 
 // c14evalCode mirrors what the implementation does with one code: parse, validate, eval,
 // fmt.Sprint — or the inline error marker.
-func c14evalCode(code string, env c14env) string {
+func c14evalCode(code string, env c14env) (string, int) {
 	ticks := 0
 	vs := c14scope(env, &ticks)
 	r := guarded(2*time.Second, func() (interface{}, error) {
@@ -72,12 +72,12 @@ func c14evalCode(code string, env c14env) string {
 		return ast.Runtime.Eval(vs.NewChild("c14"), make(map[string]interface{}), erp.NewThreadID())
 	})
 	if r.Panicked || r.TimedOut {
-		return "#<harness: code evaluation did not return>"
+		return "#<harness: code evaluation did not return>", ticks
 	}
 	if r.Err != nil {
-		return fmt.Sprintf("#%v", r.Err.Error())
+		return fmt.Sprintf("#%v", r.Err.Error()), ticks
 	}
-	return fmt.Sprint(r.Val)
+	return fmt.Sprint(r.Val), ticks
 }
 
 func c14candidates(v string) []string {
@@ -108,7 +108,6 @@ func c14one(c *Ctx, desc c14case) {
 		}
 	}
 	v, raw := desc.Value, desc.Raw
-	tickCode := "t()"
 	src := c14source(v, raw)
 	toks := parser.LexToList("c14", src)
 	if len(toks) != 2 || toks[0].ID != parser.TokenSTRING || toks[1].ID != parser.TokenEOF {
@@ -140,12 +139,16 @@ func c14one(c *Ctx, desc c14case) {
 		c.Violate("not-a-string", fmt.Sprintf("result is %T", r.Val), desc)
 		return
 	}
-	var tbl []string
+	var tbl, tickTbl []string
 	for _, code := range c14candidates(tokVal) {
-		tbl = append(tbl, "("+CoqBytes(code)+", "+CoqBytes(c14evalCode(code, env))+")")
+		text, n := c14evalCode(code, env)
+		tbl = append(tbl, "("+CoqBytes(code)+", "+CoqBytes(text)+")")
+		if n > 0 {
+			tickTbl = append(tickTbl, fmt.Sprintf("(%s, %d%%nat)", CoqBytes(code), n))
+		}
 	}
 	term := fmt.Sprintf("mkCase %d %s %s %s %s %s %d", id, CoqBool(allow), CoqBytes(tokVal),
-		CoqList(tbl), CoqBytes(tickCode), CoqBytes(out), ticks)
+		CoqList(tbl), CoqList(tickTbl), CoqBytes(out), ticks)
 	nontrivial := false
 	if i := strings.Index(tokVal, "{{"); i >= 0 && strings.Contains(tokVal[i+2:], "}}") {
 		nontrivial = true
